@@ -964,3 +964,43 @@ def narrow_arith(fv, node, _seen=None):
     if k == "block" and node.get("expr") is not None:
         return narrow_arith(fv, node["expr"], _seen)
     return out
+
+
+
+OPENERS = ("std::fs::File::create", "std::fs::OpenOptions::open", "ktio::mmap::mmap_file_for_writing")
+
+
+def rule_output_always_created(ctx, rule, fv, who):
+    """A8: every path through the writer that ends normally (falls off the end or returns Ok) has
+    created/truncated its output file; an early `return Ok(())` before the open leaves a stale file of an earlier
+    run (or no file at all) where a fresh location would receive an (empty) result."""
+    def is_open(n):
+        return n.get("k") in ("call", "mcall") and (cname(n) in OPENERS or rname(n) in OPENERS)
+
+    def want(n):
+        return is_open(n) or n.get("k") == "ret"
+    opens = [n for n in fv.nodes if is_open(n)]
+    if not opens:
+        ctx.fail(rule, "%s:output_open" % who, "no open-for-write call found in %s" % fv.path, fv.fn["sp"])
+        return
+    # only opens on the function's own sequential path count (not those inside worker closures)
+    try:
+        paths = enum_paths(fv.body, want)
+    except TooManyPaths:
+        ctx.fail(rule, "%s:paths" % who, "too many paths", fv.fn["sp"])
+        return
+    bad = None
+    for ev, ex in paths:
+        opened = any(e[0] == "ev" and is_open(e[1]) for e in ev)
+        if ex[0] == "ret":
+            t = fv.term(ex[1].get("e")) if ex[1].get("e") is not None else ("unit",)
+            is_err = (t[0] == "call" and t[1].endswith("::Err")) or t[0] == "try"
+            if not opened and not is_err:
+                bad = ex[1]
+        elif ex[0] == "fall" and not opened:
+            bad = fv.body
+    ctx.check(rule, "%s:output_always_created" % who, bad is None,
+              "every normally-ending path of %s has created/truncated the output (%d paths)" % (who, len(paths)),
+              "a path of %s ends normally without having opened its output for writing: an output left by an earlier "
+              "run survives (or no file is produced) although a fresh location would receive this run's result" % who,
+              line_of(bad) if bad is not None else None)
